@@ -2,6 +2,10 @@
 parameter variants, evaluation in forked workers (numba JIT dominates: one worker compiles an indicator once),
 integer logging of float series for TLC.  Nothing here judges: it produces *inputs* and *recorded outputs*."""
 import inspect, math, os, random, multiprocessing, traceback
+# numba kernels do not check array bounds: with an input shorter than a period parameter several of jesse's kernels
+# write outside their arrays (heap corruption, "free(): invalid pointer").  Bounds checking turns that undefined
+# behaviour into an IndexError, which the drivers record as "raised on this input" (must be set before numba is imported).
+os.environ.setdefault("NUMBA_BOUNDSCHECK", "1")
 import numpy as np
 
 T0 = 1609459200000
@@ -70,11 +74,25 @@ def variants(entry, rng, count, sweep=False):
                 kw[name] = round(d * rng.choice([0.5, 0.75, 1.25, 1.5, 2.0]), 6) if d else rng.choice([0.0, 0.5, 1.0])
             # other defaults (None, objects) stay default
         key = tuple(sorted(kw.items()))
-        if key in seen:
+        if key in seen or min_len(entry, kw) >= 200:
             continue
         seen.add(key)
         res.append(kw)
     return res
+
+
+def min_len(entry, kw):
+    """shortest input the drivers feed: the sum of the period-like integer parameters + 2 (capped at 200).  Below that
+    several kernels leave defined behaviour (as_strided with a negative shape, writes past the end); all they could
+    return there is warm-up padding."""
+    tot = 0
+    for name, d in entry["params"].items():
+        v = kw.get(name, d)
+        if name in ENUM_INT or isinstance(v, bool) or not isinstance(v, int):
+            continue
+        if 0 < v <= 200:
+            tot += v
+    return min(tot + 2, 200)
 
 
 # ------------------------------------------------------------------------------------------------ series
@@ -233,26 +251,72 @@ def exc_name(ex):
 
 
 # ------------------------------------------------------------------------------------------------ parallel map
-_POOL_FN = None
-
-
-def _guard(item):
+def _child(fn, item, conn):
     try:
-        return _POOL_FN(item)
-    except BaseException as ex:       # a worker never dies silently
-        return ("EXC", "%s: %s\n%s" % (type(ex).__name__, ex, traceback.format_exc()[-2000:]))
+        res = fn(item)
+    except BaseException as ex:
+        res = ("EXC", "%s: %s\n%s" % (type(ex).__name__, ex, traceback.format_exc()[-2000:]))
+    try:
+        conn.send(res)
+    finally:
+        conn.close()
+        os._exit(0)
 
 
-def pmap(fn, items, procs=16):
-    """fn(item) in forked workers; long-lived workers (an indicator's kernels are JIT-compiled once per worker)"""
-    global _POOL_FN
+def pmap(fn, items, procs=16, timeout=600):
+    """fn(item) for every item, each in its own forked child (an indicator's kernels are compiled in the child that
+    needs them; a child that dies - numba kernels are not memory safe - or hangs costs only its own item).
+    Returns results in order; ('CRASH', text) / ('EXC', text) for a child without a result."""
     if not items:
         return []
+    import time
     import jesse.indicators  # noqa: imported before the fork so that children share it
-    _POOL_FN = fn
     ctx = multiprocessing.get_context("fork")
-    with ctx.Pool(processes=min(procs, len(items))) as pool:
-        return pool.map(_guard, items, chunksize=1)
+    results = [None] * len(items)
+    running = {}
+    nxt = 0
+    while nxt < len(items) or running:
+        while nxt < len(items) and len(running) < procs:
+            pr, pw = ctx.Pipe(duplex=False)
+            p = ctx.Process(target=_child, args=(fn, items[nxt], pw))
+            p.start()
+            pw.close()
+            running[nxt] = (p, pr, time.time())
+            nxt += 1
+        progressed = False
+        for i, (p, pr, t0) in list(running.items()):
+            if pr.poll(0):
+                try:
+                    results[i] = pr.recv()
+                except EOFError:
+                    results[i] = ("CRASH", "child exited without a result (exit code %s)" % p.exitcode)
+                p.join()
+                pr.close()
+                del running[i]
+                progressed = True
+            elif not p.is_alive():
+                # died; drain a result that may have been sent just before
+                if pr.poll(0.05):
+                    try:
+                        results[i] = pr.recv()
+                    except EOFError:
+                        results[i] = ("CRASH", "child died (exit code %s)" % p.exitcode)
+                else:
+                    results[i] = ("CRASH", "child died (exit code %s)" % p.exitcode)
+                p.join()
+                pr.close()
+                del running[i]
+                progressed = True
+            elif time.time() - t0 > timeout:
+                p.kill()
+                p.join()
+                pr.close()
+                results[i] = ("CRASH", "child killed after %ss" % timeout)
+                del running[i]
+                progressed = True
+        if not progressed:
+            time.sleep(0.01)
+    return results
 
 
 def pscale_of(candles):
